@@ -480,7 +480,10 @@ def write_json(path, obj):
 TRUSTED_BASE_COMMON = [
     "Coq 8.16.1 kernel and coqc (vm_compute used for evaluation and finite witnesses; no native_compute)",
     "hand-written Gallina model tied to /repo by the correspondence harness (generators, recorders, projections in /verif/harness)",
-    "CPython semantics of the modelled statements; heapq; insertion-ordered dict",
+    "the fail-closed Python-ast -> Gallina translators harness/py2coq_*.py with the normaliser harness/pynorm.py (the units of this property are listed under "
+    "translator_ties) and the static preludes coq/theories/*Py.v that give the translated constructs their meaning",
+    "CPython semantics of the modelled statements; heapq's contract (a heap's [0] / heappop is the least element, heappush keeps a heap, heapify makes one); "
+    "insertion-ordered dict with distinct keys",
     "embedding: finite doubles under < and == are order-isomorphic to their rational values; correspondence compared exactly on the dyadic stream only",
 ]
 
